@@ -178,6 +178,9 @@ class Sim(object):
         self._storm = []
         self._penalized = {}
         self.early_budget = 400
+        # buggify: a runnable task may be descheduled for a long (virtual) while at a scheduling point
+        self.p_stall = (0.0, 0.0, 0.01, 0.04)[d(4, kind="p_stall")]
+        self.stall_budget = 4
         self._pct_changes = ()
         if self.strategy == "pct":
             k = d(4, kind="pct_k")
@@ -239,6 +242,7 @@ class Sim(object):
         if self.faults_stopped_at is None:
             self.faults_stopped_at = (self.step, self.now)
             self.p_early = 0.0
+            self.p_stall = 0.0
 
     # -- task management ---------------------------------------------------
 
@@ -312,6 +316,19 @@ class Sim(object):
         self.log(t.name, op)
         if op == "cb" or op.startswith("write"):
             self.last_progress = self.step
+        if self.p_stall > 0.0 and self.stall_budget > 0 and self.faults_stopped_at is None:
+            if self.draw(2, p0=1.0 - self.p_stall, kind="stall") == 1:
+                self.stall_budget -= 1
+                dur = (0.3, 1.5, 12.0)[self.draw(3, kind="stall_len")]
+                self.fault("task_stall")
+                self.log(t.name, "stalled %.1fs" % dur)
+                t.state = "blocked"
+                t.pred = None
+                t.deadline = self.now + dur
+                t.timed_out = False
+                t.waiting_op = "stalled"
+                self._schedule_next(t)
+                return
         self._schedule_next(t)
 
     def block_until(self, op, pred, timeout=None):
